@@ -274,6 +274,10 @@ func inScope(s Schema, e expectation, format string) (ok bool, why string) {
 		}
 		return true, ""
 	}
+	if e.T.Default == "elist" && format == "cue" {
+		// in CUE every open list `[...T]` already has the default `[]`, so `| *[]` declares nothing new
+		return false, "CUE: an empty-list default is what every open list already has"
+	}
 	if e.T.K == "ref" && format != "cue" {
 		return false, "default beside $ref (ignored by draft-07 / OpenAPI 3.0)"
 	}
